@@ -363,13 +363,13 @@ def run_real(case, cat):
         for o in CORE_OPTS:
             kw = dict(cleaned=o['cleaned'], subsamples=subs_arg(o), fields=['N', 'x_com', 'r50_L2com'])
             cf = _ENV.load(fzdir, **kw)
-            chc.asdf = real_asdf
+            _ENV.fake.enabled = False          # every path goes to the real asdf.open
             try:
                 with warnings.catch_warnings():
                     warnings.simplefilter('ignore')
                     cr = chc.CompaSOHaloCatalog(zdir, **dict(kw, subsamples=subs_arg(o)))
             finally:
-                chc.asdf = _ENV.fake
+                _ENV.fake.enabled = True
             n += 1
             for tname in ('halos', 'subsamples'):
                 tf, tr = getattr(cf, tname), getattr(cr, tname)
